@@ -42,32 +42,33 @@ def parsePaused (s : String) : Option Paused :=
   if s == "n" then some .no else if s == "y" then some .yes else if s == "s" then some .starting else none
 
 /-- render callbacks, applying the text layer where the side decodes; `none` = UnicodeDecodeError -/
-def showOuts (st : Option St) : List Out → List String → Option St × List String × Bool
+def showOuts (chk : Bool) (st : Option St) : List Out → List String → Option St × List String × Bool
   | [], acc => (st, acc, true)
   | o :: rest, acc =>
     match st, o with
-    | none, .data dt bs => showOuts none rest (acc ++ [s!"d{showDt dt}:{hex bs}"])
+    | none, .data dt bs => showOuts chk none rest (acc ++ [s!"d{showDt dt}:{hex bs}"])
     | some s, .data dt bs =>
       match decode s bs with
       | none => (st, acc, false)
       | some (s', cps) =>
-        showOuts (some s') rest (acc ++ [s!"t{showDt dt}:" ++
+        showOuts chk (some s') rest (acc ++ [s!"t{showDt dt}:" ++
           (if cps.isEmpty then "-" else String.intercalate "." (cps.map toString))])
-    | none, .eof => showOuts none rest (acc ++ ["e"])
-    | none, .lost => showOuts none rest (acc ++ ["l"])
-    | some s, .eof => if finalOk s then showOuts st rest (acc ++ ["e"]) else (st, acc, false)
+    | none, .eof => showOuts chk none rest (acc ++ ["e"])
+    | none, .lost => showOuts chk none rest (acc ++ ["l"])
+    | some s, .eof => if finalOk s then showOuts chk st rest (acc ++ ["e"]) else (st, acc, false)
     | some s, .lost =>
-      -- the final decode ran earlier in the same call when EOF was delivered first; only a state that is
-      -- still incomplete here is an error
-      if finalOk s then showOuts st rest (acc ++ ["l"]) else (st, acc, false)
+      -- `_flush_recv_buf` runs `decoder.decode(b'', True)` before it closes; `close()` by the application
+      -- (`_discard_recv`, `chk = false`) does not
+      if finalOk s || !chk then showOuts chk st rest (acc ++ ["l"]) else (st, acc, false)
 
-def finish (d : D) (x : Side) (i : Nat) (pre : MSys) (inMsg : String) (r : Except Err MSys) : D × String :=
+def finish (d : D) (x : Side) (i : Nat) (pre : MSys) (inMsg : String) (r : Except Err MSys) (chk : Bool := true) :
+    D × String :=
   match r with
   | .error e => ({ d with dead := true }, s!"fatal {showErr e}")
   | .ok m' =>
     let newMsgs := ((m'.link x.other).drop ((pre.link x.other).length)).map (fun p => showMsg p.2)
     let newOuts := ((m'.hist x i).dl).drop ((pre.hist x i).dl.length)
-    let (st', outs, ok) := showOuts (d.dec x i) newOuts []
+    let (st', outs, ok) := showOuts chk (d.dec x i) newOuts []
     if ok then
       ({ d with m := m', dec := fun y j => if y = x ∧ j = i then st' else d.dec y j },
        s!"ok ch={i} in={inMsg} msgs={showList newMsgs} outs={showList outs}")
@@ -133,7 +134,7 @@ def step (d : D) (ws : List String) : D × String :=
     | some x, some i, some e =>
       match Channel.step (d.m.ep x i) e.toEv with
       | .error err => if err.isApi then (d, s!"api {showErr err}") else ({ d with dead := true }, s!"fatal {showErr err}")
-      | .ok _ => finish d x i d.m "-" (d.m.step (.app x i e))
+      | .ok _ => finish d x i d.m "-" (d.m.step (.app x i e)) (e != .close)
     | _, _, _ => (d, "bad-op")
   | ["deliver", x] =>
     if d.dead then (d, "dead") else
